@@ -51,6 +51,9 @@ DETECT = {   # name: (check id, caught by (target signature config), first resul
  "C15b": ("C15", "rsplit class-small_note / aligned_parts-endless / all_parts-endless / empty-range-nonempty-part", "caught at once (through the empty range and the part lists); class-definition oracle added for the misclassification itself"),
  "C16b": ("C16", "composite linear:read-count / linear:write-count / stripe:read-count / stripe:write-count", "caught at once"),
  "C20b": ("C20", "subfs escape", "caught at once"),
+ "C05c": ("C05", "tpool_xv thread-lost-or-stuck (2:jnpWpjypJpJ)", "missed at first; caught after adding the worker-interrupt op W"),
+ "C18c": ("C18", "rl_xv waiter-stuck / index-not-empty (M|L2U, M,pL2U,pL9U)", "missed at first; caught after adding the ranged-unlock op M"),
+ "C17c": ("C17", "NOT CAUGHT (open gap)", "missed; needs an evict-to-end inside the file after a whole-file evict, then reuse"),
  "C04c": ("C04", "sleep_prog sleep-returned-later-interrupts-errno (k2s2, k3s1, k2s2w, k3s1w, k2s2d, k3s1d)", "missed at first; caught after adding the first-interrupt-wins oracle"),
 }
 for d in sorted(glob.glob(os.path.join(V, "seeded", "C*"))):
